@@ -24,6 +24,7 @@ EXPLANATION = (
     "skipped on graph state; the orphan sweep runs after the loop; R04.4 a look-up after a registration sees it: the provider's look-up "
     "keeps no memo between the session store and the answer (= R13.5). Does not decide: relational composition of per-statement dataflows, "
     "wildcard expansion results."
+    ' R04.7 (= R13.2) what a metadata look-up may be conditioned on.'
 )
 RULE_TEXT = "one obligation per registration site, per statement of the repair loop, per model identity clause"
 
